@@ -289,3 +289,26 @@ class Scope:
                         return True
             return True
         return False
+
+
+def reach(repo, fn, depth=3):
+    """fn and the package functions it can reach (local helpers, imported
+    functions, constructors, methods with a unique name or of a small
+    interface)."""
+    method_index = {}
+    for m in repo.modules.values():
+        for c in m.classes.values():
+            for name, f in c.methods.items():
+                if not (name.startswith("__") and name.endswith("__")):
+                    method_index.setdefault(name, []).append(f)
+    seen = {fn.key: fn}
+    frontier = [fn]
+    for _ in range(depth):
+        nxt = []
+        for f in frontier:
+            for h in _callees(repo, f, method_index, None):
+                if h.key not in seen:
+                    seen[h.key] = h
+                    nxt.append(h)
+        frontier = nxt
+    return list(seen.values())
